@@ -198,7 +198,36 @@ def const_semantic_cases(build):
                 cases.append((f'{f}.push:{le(sq, 48 if F == "Fp" else 32)} {f}.sqrt', 'some sq_ok=true', f'{F}::sqrt of the square {v}^2'))
     return cases
 
+def coherence_cases(build):
+    cases = []
+    B = ref_B()
+    ks = [1, 2, 3, 5, 7, 22, R - 1, 2 ** 64]
+    for k in ks:
+        reps = [f'B {K(k)} mul', f'B {K(R - k)} mul neg', f'B {K(R - k)} mul {K(R - 1)} mul', f'dec:{ref_enc_hex(ref_mul(B, k))}', f'B {K(k)} mul B {K(3)} mul add B {K(3)} mul sub']
+        for i, a in enumerate(reps):
+            for b in reps[i + 1:]:
+                cases.append((f'{a} {b} eq', 'true', f'equal elements [{k}]B in two representations compare equal'))
+                if build == 'ark':
+                    cases.append((f'{a} {b} hasheq', 'true', f'equal elements [{k}]B in two representations hash equally'))
+                    cases.append((f'{a} aff {b} aff aeq', 'true', f'equal affine points [{k}]B compare equal'))
+                    cases.append((f'{a} aff {b} aff ahasheq', 'true', f'equal affine points [{k}]B hash equally'))
+        cases.append((f'{reps[0]} B {K(k + 1)} mul eq', 'false', f'[{k}]B != [{k+1}]B'))
+    idents = ['I', 'B B sub', f'B B {K(R - 1)} mul add', f'B {K(5)} mul B {K(5)} mul {K(R - 1)} mul add', f'B {K(0)} mul', f'dec:{le(0)}'] + (['DEF'] if build == 'ark' else [])
+    for a in idents:
+        cases.append((f'{a} isid', 'true', f'is_identity of the identity written as `{a}`'))
+        cases.append((f'{a} I eq', 'true', f'`{a}` == IDENTITY'))
+        if build == 'ark':
+            cases.append((f'{a} iszero', 'true', f'Zero::is_zero of the identity written as `{a}`'))
+            cases.append((f'{a} aff aiszero', 'true', f'AffineRepr::is_zero of the identity written as `{a}`'))
+            cases.append((f'{a} DEF eq', 'true', f'`{a}` == default()'))
+            cases.append((f'{a} I hasheq', 'true', f'hash of the identity written as `{a}`'))
+    for k in (1, 5):
+        cases.append((f'B {K(k)} mul isid', 'false', 'is_identity of a non-identity'))
+        if build == 'ark': cases.append((f'B {K(k)} mul iszero', 'false', 'is_zero of a non-identity'))
+    return cases
+
 BATTERIES = {
+    'C08': lambda b: coherence_cases(b),
     'C17': lambda b: const_cases(b) + const_semantic_cases(b),
     'C02': lambda b: decode_cases(b) + funnel_cases(b),
     'C03': lambda b: encode_cases(b),
